@@ -109,6 +109,25 @@ func genC08(seed uint64, idx int, tier string) *Scenario {
 		}
 		p.Ports = append(p.Ports, e)
 	}
+	// a second entry with the same protocol and port on another specific address (still unambiguous)
+	if r.Chance(0.3) {
+		for i := range p.Ports {
+			if p.Ports[i].IP != "" {
+				e := p.Ports[i]
+				if e.IP == sensorIP {
+					e.IP = "192.0.2.2"
+				} else {
+					e.IP = sensorIP
+				}
+				e.Services = nil
+				for j := r.Range(1, 3); j > 0; j-- {
+					e.Services = append(e.Services, p.Stubs[r.Intn(len(p.Stubs))].Name)
+				}
+				p.Ports = append(p.Ports, e)
+				break
+			}
+		}
+	}
 	sc := &Scenario{Engine: "c08"}
 	sc.Config = baseConfig + stubConfig(p.Stubs) + portsConfig(p.Ports)
 	pj, _ := json.Marshal(p)
@@ -182,6 +201,7 @@ func genC08(seed uint64, idx int, tier string) *Scenario {
 	sc.Class = fmt.Sprintf("ports=%d clients=%d %s", np, nc, strings.Join(cl, "+"))
 	sc.Schedule = r.Schedule(64)
 	sc.DrainMs = 62000
+	sc.Params["read_size"] = []int{1, 2, 8, 64, 1024, 4096, 4096}[r.Intn(7)]
 	return sc
 }
 
@@ -305,6 +325,7 @@ func expectedService(p *c08Params, e *portEntry, a *Actor, co *ConnObs) (name st
 func runC08(t *testing.T, sc *Scenario) Result {
 	res := okResult()
 	stubHub.reset()
+	stubHub.ReadSize = sc.ParamInt("read_size", 4096)
 	obs := RunScenario(t, sc, nil)
 	res.Digest = traceDigest(obs, nil)
 	res.Steps, res.SimMs = obs.Steps, obs.SimMs
